@@ -87,7 +87,11 @@ func H_C19_repeat() {
 	vAssume(err == nil)
 	kind := vParam("VALS")
 	env1 := c01Setup(toks, kind)
-	env2 := c01Setup(toks, kind)
+	kind2 := kind
+	if vParam("SKEL") >= 0 {
+		kind2 = 0 // fixed shapes: the interleaved evaluation runs over integers (keeps the value-type forks linear)
+	}
+	env2 := c01Setup(toks, kind2)
 	env1b := &evalEnv{ops: env1.ops, funcs: env1.funcs, vars: env1.vars}
 	prog := snapProgram(calc)
 	vs1 := snapVars(env1)
